@@ -11,8 +11,8 @@ LEVEL = "fault_enumeration"
 ENGINE = "E-FAULT"
 TECHNIQUE = "exhaustive fault enumeration: every position of the failing solve x both failure kinds (and every pair of positions), executed on the real estimate run through a solver seam; differential oracle against the fault-free run"
 RULE = (
-    "for nonparametric and gaussian runs with E in {1,2} estimands and A in {1,2} interval levels (K = E*(1+2A) fits through "
-    "fit_model), lambda in {0, 0.5}, with/without a covariate: a fault of kind {SolverError, cvxpy inaccuracy UserWarning} is injected at "
+    "for nonparametric and gaussian runs with E in {1,2} estimands and A in {1,2} interval levels (K = E*(1+2A) per-quantile solves issued through "
+    "fit_model; the fault is injected inside the solve of one quantile, where the real failures happen), lambda in {0, 0.5}, with/without a covariate: a fault of kind {SolverError, cvxpy inaccuracy UserWarning} is injected at "
     "every position k in 1..K (thorough: every pair of positions as well). Oracle: run completes; right after the failed "
     "attempt the same solver is called once more with the same quantile, weights, lambda, intercept flag and "
     "normalize_weights=False; tables equal the fault-free run (+-1 vote). non-trivial = a fault was actually delivered"
@@ -96,13 +96,14 @@ def evaluate(case):
     calls = list(_SEAM.calls)
     _SEAM.reset({})
     K = len(cfg["estimands"]) * (1 + 2 * len(cfg["alphas"]))
-    if len(ref_calls) != K:
-        raise RuntimeError(f"expected {K} fits, saw {len(ref_calls)}")
+    n_solves = sum(len(c.get("positions", [])) for c in ref_calls)
+    if n_solves != K:
+        raise RuntimeError(f"expected {K} per-quantile solves through fit_model, saw {n_solves}")
     delivered = [c for c in calls if c.get("fault")]
     cov["faults_delivered"] += len(delivered)
     for c in delivered:
         cov["fault_" + c["fault"]] += 1
-        role = (c["position"] - 1) % (1 + 2 * len(cfg["alphas"]))
+        role = (c["position"] - 1) % (1 + 2 * len(cfg["alphas"]))  # solve order within one estimand: median, then lower/upper per level
         cov["fault_on_" + ("median" if role == 0 else ("lower" if role % 2 == 1 else "upper"))] += 1
     if "error" in res:
         viol(f"run-failed:{res['error'][0]}", f"plan={plan} ({pm}): run raised {res['error']}")
